@@ -22,7 +22,7 @@ Ops ==
     {Op("Len", 0, 0, 0), Op("Iter", 0, 0, 0), Op("Bool", 0, 0, 0), Op("Listify", 0, 0, 0),
      Op("Reversed", 0, 0, 0), Op("Copy", 0, 0, 0)} \cup
     {Op("Contains", x, 0, 0) : x \in {0, 2}} \cup
-    {Op("Eq", e, 0, 0) : e \in {0, 1}} \cup
+    {Op("Eq", e, 0, 0) : e \in 0..4} \cup
     {Op("Count", 1, 0, 0)} \cup
     {Op("HasInd", i, 0, 0) : i \in {0, 2, 3}} \cup
     {Op("IterTake", 1, 0, 0), Op("IterDrain", 0, 0, 0), Op("CopyIndex", 0, 0, 0), Op("CopyIndex", 1, 0, 0),
